@@ -74,6 +74,13 @@ def step (s : State) (j : Json) : Except String (State × Json × List Fired) :=
     match onEvents now evs s with
     | none => pure (s, mkObj [("panic", jb true)], [])
     | some s' =>
+      -- a transition leaves WAITING_SIGN for WAITING_EXECUTION only on completion of ITS OWN hand-over signing
+      match s.transition, itr with
+      | some t, .arr #[ist, _, _, _, _, _] =>
+        let handed := evs.any fun e => match e with | .signingCompleted sid => sid == t.signingID | _ => false
+        if t.status == stWaitingSign && (asNat ist).toOption.getD 0 == stWaitingExec && !handed then
+          fired := fired ++ [{ name := "transition_advanced_without_its_handover_signature", detail := mkObj [("handoverSid", jn t.signingID)] }]
+      | _, _ => pure ()
       if icur ≠ s.currentGroup then
         fired := fired ++ [{ name := "current_group_changed_outside_execution", detail := mkObj [("from", jn s.currentGroup), ("to", jn icur)] }]
       pure (s', dump s', fired)
